@@ -67,9 +67,9 @@ ROWS = [
     ("SimpleGarnishData::<T, A>::add_to_current_char_list", r"K2:Overflow\(Sub:usize\)", "len - 1 inside `for i in 0..len`"),
     ("SimpleGarnishData::<T, A>::add_to_current_char_list", r"K1:macro:todo", "operand of type Custom/Invalid: stack-frame cells are the only Custom values a program can own and pop_register refuses to hand them out ('Popped StackFrame from registers', witnessed with `({ ;; } ~~) ~# \"\"`); Invalid is never the type of a stored value. Host-registered custom data is outside the programs the property quantifies over"),
     # ---------------- Basic garnish impl
-    ("BasicGarnishData::<T, Companion>::get_symbol_string::{closure#0}", r"K1:.*unwrap", "cells after a CharList(n) header are Char cells by construction of add_string / parse_add_symbol (header = chars().count() since the fix)"),
+    ("BasicGarnishData::<T, Companion>::get_symbol_string::{closure#0}", r"K1:.*unwrap", "cells after a CharList(n) header are Char cells by construction of add_string / parse_add_symbol (header = chars().count() since the fix)", ["charlist-header-counts-chars"]),
     ("BasicGarnishData::<T, Companion>::get_symbol_string", r"K3:index:Vec\[Range\]", "symbol-table block extent (" + BLOCK_INV + "); the char cells of a name follow its CharList(n) header inside the data block"),
-    ("::get_char_list_iter::{closure#0}", r"K1:.*unwrap", "cells after a CharList(n) header are Char cells by construction (parse_add_char_list, add_string, conversions write n cells after writing n)"),
+    ("::get_char_list_iter::{closure#0}", r"K1:.*unwrap", "cells after a CharList(n) header are Char cells by construction (parse_add_char_list, add_string, conversions write n cells after writing n)", ["charlist-header-counts-chars"]),
     ("::get_byte_list_iter::{closure#0}", r"K1:.*unwrap", "cells after a ByteList(n) header are Byte cells by construction"),
     ("::get_char_list_iter", r"K3:index:Vec\[Range\]", "start/end come from extents_to_start_end: both clamped to base+1+len and end >= start since the fix; the n cells of the list lie inside the data block", ["range-end-clamped"]),
     ("::get_byte_list_iter", r"K3:index:Vec\[Range\]", "as get_char_list_iter", ["range-end-clamped"]),
